@@ -452,7 +452,8 @@ M('seed3-C02-topic-rename-cascades', ['C02'], Z, """                    for topi
                                 raise RuntimeError(f'duplicate topic {topic!r} from: {sender.server_id}  @ {sender.addr}')
 
                             data[topic] = frame
-""", """                    frames = {topic: frame for topic, frame in ((recvd := sender.recvd) or {}).items() if frame is not None}
+""", """                    recvd = sender.recvd
+                    frames = {topic: frame for topic, frame in (recvd or {}).items() if frame is not None}
 
                     for src, dst in topic_map.items():
                         if src in frames:
